@@ -21,11 +21,14 @@ EXTENDS Integers, Sequences, FiniteSets, TLC, Json
 
 CONSTANTS WithHist
 
-Stages == <<"hashes-1", "hashes-2", "blocks-1">>
+\* hashes-1: the head fetch of the ancestor lookup; search-1: the first single-hash request of its binary search;
+\* hashes-2: the first request of the hash download proper; blocks-1: the first momentum request
+Stages == <<"hashes-1", "search-1", "hashes-2", "blocks-1">>
 HashAnswers  == {"correct", "empty", "garbage", "unknown-hashes", "too-many", "reversed", "silent", "silent-while-another-remote-sends-hashes"}
 BlockAnswers == {"correct", "empty", "garbage", "nil-momentum", "unrequested", "height-below-window", "height-above-window",
                  "duplicated", "too-many", "silent"}
-Answers(st) == IF st = "blocks-1" THEN BlockAnswers ELSE HashAnswers
+SearchAnswers == {"correct", "empty", "garbage", "unknown-hashes", "too-many", "silent"}
+Answers(st) == IF st = "blocks-1" THEN BlockAnswers ELSE IF st = "search-1" THEN SearchAnswers ELSE HashAnswers
 
 VARIABLES stage, alive, out, hist
 vars == <<stage, alive, out, hist>>
